@@ -162,21 +162,21 @@ add('s_ctor', 'alloc_witness_boxed', ['C17'], U(1, 4), qn=[3], tn=[], stubs=NOAL
 
 # ---------------------------------------------------------------- C18: the same families built with the `unstable` feature
 C18_CFG = ['default', 'unstable']
-C18_N = [1, 3]
+C18_N = [3]
 for fn in ('push_back', 'push_front', 'try_push_back', 'try_push_front', 'pop_back', 'pop_front', 'remove', 'swap',
            'swap_remove_back', 'swap_remove_front', 'truncate_back', 'truncate_front', 'clear', 'extend', 'fill', 'fill_spare',
            'fill_with', 'fill_spare_with'):
-    add('s_mut', fn, ['C18'], natural(fn), qn=C18_N, tn=[0, 2, 4], mask='ALL', configs=C18_CFG)
-add('s_mut', 'extend_from_slice', ['C18'], lambda n: max(2 * n + 4, 15), qn=C18_N, tn=[0, 2, 4], mask='ALL', configs=C18_CFG)
-add('s_mut', 'make_contiguous', ['C18'], U(1, 4), qn=C18_N, tn=[0, 2, 4], stubs=[ROT], mask='ALL', configs=C18_CFG)
+    add('s_mut', fn, ['C18'], natural(fn), qn=C18_N, tn=[0, 1, 2, 4], mask='ALL18', configs=C18_CFG)
+add('s_mut', 'extend_from_slice', ['C18'], lambda n: max(2 * n + 4, 15), qn=C18_N, tn=[0, 1, 2, 4], mask='ALL18', configs=C18_CFG)
+add('s_mut', 'make_contiguous', ['C18'], U(1, 4), qn=C18_N, tn=[0, 1, 2, 4], stubs=[ROT], mask='ALL18', configs=C18_CFG)
 for mod, fn in (('s_view', 'views'), ('s_view', 'view_mut'), ('s_view', 'view_mut_distinct'), ('s_iter', 'iter_script'),
                 ('s_iter', 'iter_mut_script'), ('s_iter', 'into_iter_script'), ('s_drain', 'drain'), ('s_drain', 'drain_forget'),
                 ('s_drain', 'drain_debug'), ('s_ctor', 'ctor_new'), ('s_ctor', 'from_iter'), ('s_ctor', 'clone_buf'),
                 ('s_ctor', 'clone_from'), ('s_ctor', 'into_iter_all'), ('s_cmp', 'ord_buffers'), ('s_cmp', 'hash_layout')):
-    add(mod, fn, ['C18'], natural(fn), qn=C18_N, tn=[0, 2, 4], mask='ALL', configs=C18_CFG)
-add('s_ctor', 'from_array', ['C18'], lambda n, m: max(n, m) + 4, pairs=([(0, 2), (1, 3), (3, 2), (3, 5)], [(2, 5), (4, 7)]), mask='ALL', configs=C18_CFG)
-add('s_cmp', 'eq_buffers', ['C18'], lambda n, m: max(n, m) + 4, pairs=([(1, 3), (3, 3)], [(4, 3)]), mask='ALL', configs=C18_CFG)
-add('s_io', 'io_std', ['C18'], lambda n, k: 2 * n + 5, pairs=([(1, 1), (3, 1)], [(4, 1)]), feat='feature = "std"', mask='ALL', configs=C18_CFG)
+    add(mod, fn, ['C18'], natural(fn), qn=C18_N, tn=[0, 1, 2, 4], mask='ALL18', configs=C18_CFG)
+add('s_ctor', 'from_array', ['C18'], lambda n, m: max(n, m) + 4, pairs=([(0, 2), (1, 3), (3, 2), (3, 5)], [(2, 5), (4, 7)]), mask='ALL18', configs=C18_CFG)
+add('s_cmp', 'eq_buffers', ['C18'], lambda n, m: max(n, m) + 4, pairs=([(1, 3), (3, 3)], [(4, 3)]), mask='ALL18', configs=C18_CFG)
+add('s_io', 'io_std', ['C18'], lambda n, k: 2 * n + 5, pairs=([(3, 1)], [(1, 1), (4, 1)]), feat='feature = "std"', mask='ALL18', configs=C18_CFG)
 
 
 def nname(n):
@@ -197,6 +197,8 @@ def instances(tier_filter=None):
                                    unwind=sc.unwind(n, m), mask=sc.mask or prop)
                 continue
             qn, tn = sc.qn, sc.tn
+            if prop == 'C20' and sc.fn in ('remove', 'drain'):
+                qn, tn = QN + [5, 6], []
             if prop == 'C11' and not sc.extra.get('expect_panic') and qn == QN:
                 # totality harnesses duplicate the functional families: quick runs them at three capacities only
                 qn, tn = [0, 1, 3], [2, 4, 5, 6]
